@@ -91,7 +91,7 @@ def check_op(ctx, k, log, room_scale=1):
     if k in DERIVED and ptr is not None:
         # object designated by the input pointer does not fit inside the region
         objsize = {"k_addrof_arr_elem": 16, "k_staticcast_mi": 64, "k_addrof_arr300_schar": 1200, "k_addrof_arr40000_short": 40000}.get(k, 12)
-        known = [("C03-object-straddles-end", z3.UGT(ptr - base, BV(size - objsize, 64)))]
+        known = [("C03-object-straddles-end", z3.And(ctx.in_region(ptr, base, size), z3.UGT(ptr - base, BV(size - objsize, 64))))]
     for q in paths:
         if q.status == "ret":
             r = q.ret
